@@ -428,9 +428,28 @@ func coqOpts(o hx.Opts) string {
 	return fmt.Sprintf("(mkopts %s %s %s %s %s)", vh.CoqZ(int64(o.MaxDepth)), vh.CoqBool(o.Signed), vh.CoqBool(o.RawToString), vh.CoqBool(o.SkipTags), vh.CoqBool(o.WriteExt))
 }
 
+// cborTag45: the input holds a head of tag 4 / 5 (decimal fraction, bigfloat), which Wire/Cbor.v does not model
+func cborTag45(in []byte) bool {
+	for i, b := range in {
+		if b == 0xc4 || b == 0xc5 {
+			return true
+		}
+		if (b == 0xd8 || b == 0xd9 || b == 0xda || b == 0xdb) && i+1 < len(in) {
+			w := map[byte]int{0xd8: 1, 0xd9: 2, 0xda: 4, 0xdb: 8}[b]
+			if i+w < len(in) && (in[i+w] == 4 || in[i+w] == 5) {
+				return true
+			}
+		}
+	}
+	return false
+}
+
 func (c *ctx) modelCase(j Job, in []byte, cls, nread int) {
 	k := modelKind(j)
 	if k == 0 || len(in) > 300 || c.nmod >= c.maxm {
+		return
+	}
+	if hx.Fmt(j.F) == hx.Cbor && k == 1 && cborTag45(in) {
 		return
 	}
 	c.nmod++
